@@ -5,6 +5,8 @@ mod api;
 mod comp;
 mod gen;
 mod kernel;
+#[cfg(feature = "par")]
+mod par;
 mod parser;
 mod sink;
 mod stream;
@@ -45,6 +47,8 @@ fn main() {
         "api" => api::generate(seed, flag(&args, "--thorough"), &mut out),
         "comp" => comp::generate(seed, cases, &mut out),
         "kernel" => kernel::generate(seed, cases, &mut out),
+        #[cfg(feature = "par")]
+        "par" => par::generate(seed, cases, &mut out),
         "parser" => {
             let stride: usize = arg(&args, "--burst-stride", 8);
             let nrandom: usize = arg(&args, "--random", 1000);
